@@ -278,7 +278,8 @@ func c01Scenarios(tier string) []*Scenario {
 		return out
 	}
 	for _, a := range c01Alphabet {
-		out = append(out, c01Seq([]string{a}, 2, Bounds{4, -1, 1}))
+		// single messages: unbounded search, i.e. every interleaving (reported as complete when no branch was cut)
+		out = append(out, c01Seq([]string{a}, 2, Bounds{-1, -1, -1}))
 		out = append(out, c01Seq([]string{a}, 1, Bounds{3, -1, 1}))
 	}
 	for _, a := range c01Alphabet {
